@@ -113,6 +113,7 @@ func GenConfig(r *core.Rng, p *Profile) Config {
 			c.Maximum = 1000
 		}
 	}
+	c.WBase = c.Maximum
 	c.WeightMode = r.Intn(3)
 	if !p.NoExp && (p.ForceExp || r.Chance(6, 10)) {
 		c.ExpKind = 1 + r.Intn(7)
